@@ -5,3 +5,5 @@ import RexModel.Props.C02
 #print axioms Rex.C02.C02_step_records_schedule_independent
 #print axioms Rex.C02.C02_message_records_schedule_independent
 #print axioms Rex.C02.C02_nbCount_needed_prefix
+#print axioms Rex.C02.C02_source_queue_discipline
+#print axioms Rex.C02.C02_machine_ownership
